@@ -202,6 +202,7 @@ def run(tier):
     rule_R13(res, prog)
     rule_R14(res, prog)
     rule_R16(res, prog)
+    rule_R17(res, prog)
     return res.finish()
 
 
@@ -1186,4 +1187,82 @@ def rule_R16(res, prog):
                          "seen neither `not listed` nor `not authenticated` (atoms %s): the certificate may be listed as revoked in an "
                          "authenticated CRL and still validates" % (fn.relfile, sln, bad), file=fn.relfile, line=sln)
         res.instance(rid, "psCRL_determineRevokedStatusBDT:%s soft verdict only for not-listed / unauthenticated" % sln, bad is None, finding=f_)
+    res.floor(rid, 2)
+
+
+def rule_R17(res, prog):
+    """(a) 'a path ... to one of the caller's trust anchors': an entry of the CA list that the certificate parser REFUSED
+    (parseStatus != success; bundles are loaded with partial parsing allowed and the load reports success) is not a trust
+    anchor - in matrixValidateCertsExt the anchor loop calls psX509AuthenticateCert(sc, ic) only under the fact
+    ic->parseStatus == PS_X509_PARSE_SUCCESS.  (b) 'no certificate is revoked by an authenticated CRL the application
+    loaded': the CRL cache may hold several CRLs of one issuer (psCRL_Insert appends), so the revocation verdict walks them
+    all - a call to internalCrlIsRevoked() lies on a loop of psCRL_determineRevokedStatusBDT."""
+    from sa import cfgutil as cu
+    rid = "C03.R17"
+    res.rule(rid, "unparsed CA entries are never trust anchors; every CRL of the issuer is consulted")
+    n = 0
+    lst = prog.by_name.get("matrixValidateCertsExt")
+    if lst:
+        fn = lst[0]
+        gf = cu.guard_facts(fn)
+        OK = prog.const("PS_X509_PARSE_SUCCESS")
+        succ = {b["id"]: [sc.get("b") for sc in b["succ"] if sc.get("b") is not None] for b in fn.blocks}
+
+        def reach(src):
+            seen, st = set(), list(succ.get(src, []))
+            while st:
+                q = st.pop()
+                if q in seen:
+                    continue
+                seen.add(q)
+                st.extend(succ.get(q, []))
+            return seen
+        for b, ln, c in fn.calls():
+            if c.get("fn") != "psX509AuthenticateCert" or len(c.get("a", [])) < 3:
+                continue
+            ic = strip(c["a"][2])
+            if ic is None or ic.get("k") != "var" or ic.get("n") != "ic" or b["id"] not in reach(b["id"]):
+                continue
+            # the anchor loop: the issuer variable is advanced by ic = ic->next in the same cycle and is not the subject's own chain
+            sc_ = strip(c["a"][1])
+            if sc_ is None or sc_.get("n") != "sc":
+                continue
+            fs = gf.get(b["id"], ())
+            cand = any("parseStatus" in txt for (txt, tr) in fs) or "issuerCerts" in " ".join(cu.ftext(x) for bb in fn.blocks for i_, l_, x in cu.block_exprs(bb) if l_ and abs(l_ - ln) < 12)
+            if not cand:
+                continue
+            n += 1
+            ok = any((txt == "(ic->parseStatus != %d)" % OK and not tr) or (txt == "(ic->parseStatus == %d)" % OK and tr) or
+                     (OK == 0 and txt == "ic->parseStatus" and not tr) for (txt, tr) in fs)     # `x != 0` is normalised to the atom x
+            f_ = None
+            if not ok:
+                f_ = Finding(PROP, rid, fn.name, "unparsed CA entry tried as a trust anchor",
+                             "%s:%s matrixValidateCertsExt(): psX509AuthenticateCert(sc, ic) in the trust-anchor loop without the fact "
+                             "ic->parseStatus == PS_X509_PARSE_SUCCESS: a CA of a bundle that the parser refused (unsupported critical "
+                             "extension, e.g. critical nameConstraints) stays in the list half filled - the load reports success - and a "
+                             "chain issued under it validates" % (fn.relfile, ln), file=fn.relfile, line=ln)
+            res.instance(rid, "matrixValidateCertsExt:%s anchor candidate must have parsed successfully" % ln, ok, finding=f_)
+    lst = prog.by_name.get("psCRL_determineRevokedStatusBDT")
+    if lst:
+        fn = lst[0]
+        succ = {b["id"]: [sc.get("b") for sc in b["succ"] if sc.get("b") is not None] for b in fn.blocks}
+
+        def reach2(src):
+            seen, st = set(), list(succ.get(src, []))
+            while st:
+                q = st.pop()
+                if q in seen:
+                    continue
+                seen.add(q)
+                st.extend(succ.get(q, []))
+            return seen
+        n += 1
+        ok = any(c.get("fn") == "internalCrlIsRevoked" and b["id"] in reach2(b["id"]) for b, ln, c in fn.calls())
+        f_ = None
+        if not ok:
+            f_ = Finding(PROP, rid, fn.name, "only one CRL of the issuer is consulted",
+                         "%s:%s psCRL_determineRevokedStatusBDT(): no call to internalCrlIsRevoked() lies on a loop: the verdict comes from the first "
+                         "cache entry of the issuer only, so with [empty CRL, revoking CRL] of one issuer in the cache (psCRL_Insert appends) a "
+                         "revoked certificate validates" % (fn.relfile, fn.blocks[0].get("ln", 0) if fn.blocks else 0), file=fn.relfile, line=0)
+        res.instance(rid, "psCRL_determineRevokedStatusBDT: the revocation lists of all CRLs of the issuer are walked", ok, finding=f_)
     res.floor(rid, 2)
